@@ -13,7 +13,7 @@ import (
 )
 
 func init() {
-	register(&Prop{ID: "C44", Gen: genC44, Run: runPipe, Timeout: 90 * time.Second})
+	register(&Prop{ID: "C44", Gen: genC44, Run: runPipe, Timeout: 10 * time.Minute})
 }
 
 func pipeKind(r *Rand, vw int) string {
@@ -44,6 +44,17 @@ func genC44(r *Rand, n int, tier string, emit func(string)) {
 		buf := Pick(r, 1, 1, 2, 3, 5)
 		var sb strings.Builder
 		fmt.Fprintf(&sb, "pipe dw=%d vw=%d buf=%d |", dw, vw, buf)
+		if r.Chance(1, 5) {
+			// submissions before Start(): ErrPipelineNotStarted, no sequence number is used
+			sb.WriteString(" nostart")
+			for k := 1 + r.Intn(4); k > 0; k-- {
+				fmt.Fprintf(&sb, " s:%s:%d:0:0:0:-", pipeKind(r, vw), Pick(r, 0, -1, 2))
+			}
+			if r.Chance(1, 4) {
+				sb.WriteString(" stop pc")
+			}
+			sb.WriteString(" start")
+		}
 		sub := func(to int) {
 			fmt.Fprintf(&sb, " s:%s:%d:%d:%d:%d:-", pipeKind(r, vw), to, pipeLat(r), pipeLat(r), pipeLat(r))
 		}
